@@ -12,6 +12,9 @@ Model of the wire decoders of hickory-proto, statement by statement:
   op/message_request.rs   `Queries::read`, `MessageRequest::read` (the server's request path,
                           crates/server/src/server/request_handler.rs `Request::from_bytes`)
 
+  rr/rdata/{tsig,cert,csync,tlsa,smimea,sshfp,openpgpkey}.rs, rr/record_type_set.rs,
+  dnssec/rdata/{ds,cds,dnskey,cdnskey,sig,rrsig,nsec,nsec3,nsec3param}.rs, `DNSSECRData::read`
+
 Record types and classes are their 16-bit codes.  RDATA codecs that are not modelled yet are
 *not* totalised away: they are a parameter `opq : Nat → Rd Bytes` of every function here (the
 driver instantiates it with a reader that answers `panic "unmodelled:<type>"`, so a case that
@@ -20,7 +23,10 @@ implementation-only).  `unmodelled` lists those type codes.
 
 Panic sites made explicit (besides those of Model/Decoder.lean):
   * `RData::read`       : `decoder.index() - start_idx`            (usize subtraction)
-  * `read_records`      : `record.map(..).unwrap()`                (TSIG arm)
+  * `read_records`      : `record.map(..).unwrap()` (TSIG arm; the closure matches the same
+                          variant as the arm, so it is `Some` by construction — no branch)
+  * `DNSSECRData::read` : `panic!("not a dnssec RecordType")`
+  * `TSIG::read_data`   : `end_idx - decoder.index()`
   * `Edns::from(&Record)`: `assert!(record_type == OPT)`, `panic!("rr_type doesn't match ..")`
 -/
 import HickoryVerif.Model.Decoder
@@ -63,6 +69,24 @@ inductive RData where
   | opt (os : List OptEntry)
   | update0 (t : Nat)
   | zero
+  /-- TSIG; the algorithm is observed through `TsigAlgorithm::to_name()`, which gives back the
+  decoded name (made relative) for known and unknown algorithms alike -/
+  | tsig (alg : Name) (time fudge : Nat) (mac : Bytes) (oid err : Nat) (other : Bytes)
+  /-- DS / CDS -/
+  | ds (tag alg dt : Nat) (digest : Bytes)
+  /-- DNSKEY / CDNSKEY (`cd`): for CDNSKEY with algorithm 0 the key bytes are not observable -/
+  | dnskey (cd : Bool) (flags alg : Nat) (key : Bytes)
+  /-- SIG / RRSIG -/
+  | sig (covered alg labels ottl expiration inception tag : Nat) (signer : Name) (sig : Bytes)
+  | nsec (next : Name) (types : List Nat)
+  | nsec3 (optOut : Bool) (iterations : Nat) (salt hash : Bytes) (types : List Nat)
+  | nsec3param (optOut : Bool) (iterations : Nat) (salt : Bytes)
+  | cert (ctype tag alg : Nat) (d : Bytes)
+  | csync (serial flags : Nat) (types : List Nat)
+  /-- TLSA / SMIMEA -/
+  | tlsa (usage selector matching : Nat) (d : Bytes)
+  | sshfp (alg fp : Nat) (d : Bytes)
+  | openpgpkey (d : Bytes)
   /-- a record type whose codec is not modelled: whatever the parameter reader returned -/
   | opaque (t : Nat) (v : Bytes)
   deriving Repr, DecidableEq, Inhabited
@@ -141,9 +165,10 @@ def T_TSIG : Nat := 250
 def OP_UPDATE : Nat := 5
 
 /-- type codes whose RDATA codec has no model yet (they go through the parameter `opq`) -/
-def unmodelled : List Nat :=
-  [250, 48, 60, 59, 43, 25, 47, 50, 51, 46, 24,      -- TSIG, DNSSEC types
-   257, 37, 62, 65, 35, 61, 53, 44, 64, 52]          -- CAA CERT CSYNC HTTPS NAPTR OPENPGPKEY SMIMEA SSHFP SVCB TLSA
+def unmodelled : List Nat := [25, 257, 65, 35, 64]      -- KEY CAA HTTPS NAPTR SVCB
+
+/-- `RecordType::is_dnssec` -/
+def isDnssec (t : Nat) : Bool := [48, 60, 59, 43, 25, 47, 50, 51, 46, 24, 250].contains t
 
 /-! ## header, query -/
 
@@ -252,12 +277,146 @@ decreasing_by
   all_goals simp only [List.length_drop, List.length_cons]
   all_goals omega
 
+/-! ### `RecordTypeSet::read_data` (the "type bit maps" of NSEC / NSEC3 / CSYNC) -/
+
+/-- `BTreeSet::insert` on the sorted list of type codes -/
+def insertSorted (a : Nat) : List Nat → List Nat
+  | [] => [a]
+  | x :: xs => if a < x then a :: x :: xs else if a = x then x :: xs else x :: insertSorted a xs
+
+/-- the type codes of the set bits of one bitmap octet (`base` = code of its most significant bit) -/
+def bitsOf (b base : Nat) : List Nat :=
+  (List.range 8).filterMap fun i => if (b / 2 ^ (7 - i)) % 2 = 1 then some (base + i) else none
+
+inductive BmState where
+  | window
+  | len (w : Nat)
+  | rtype (w len left : Nat)
+  deriving Repr, DecidableEq, Inhabited
+
+/-- the byte-wise state machine; the state it ends in is not checked by the code.  `u8` checked
+arithmetic: `(len - left) * 8` overflows (→ `Err`) only when a bit is set in that octet; `left - 1`
+underflows (→ `Err`) when the bitmap length octet was 0. -/
+def parseBitmap : Bytes → BmState → List Nat → Outcome (List Nat)
+  | [], _, acc => .ok acc
+  | b :: rest, .window, acc => parseBitmap rest (.len b) acc
+  | b :: rest, .len w, acc => parseBitmap rest (.rtype w b b) acc
+  | b :: rest, .rtype w len left, acc =>
+    if b ≠ 0 ∧ (len - left) * 8 > 255 then .err                  -- checked_mul(8)
+    else
+      let acc' := (bitsOf b (w * 256 + (len - left) * 8)).foldl (fun s x => insertSorted x s) acc
+      if left = 0 then .err                                        -- checked_sub(1)
+      else if left - 1 = 0 then parseBitmap rest .window acc'
+      else parseBitmap rest (.rtype w len (left - 1)) acc'
+
 /-- read everything left, run a pure parser `(result, iterations)` on it -/
 def toEnd {α} (p : Bytes → Outcome α × Nat) : Rd α := do
   let d ← readVecToEnd
   let r := p d
   tick r.2
   lift r.1
+
+/-- `RecordTypeSet::read_data`: consumes the rest of the decoder, one iteration per octet -/
+def readTypeSet : Rd (List Nat) := toEnd fun d => (parseBitmap d .window [], d.length)
+
+/-- `TSIG::read_data` -/
+def readTsig : Rd RData := do
+  let left ← remaining
+  let idx0 ← index
+  let endIdx := left + idx0                                  -- checked_add: cannot overflow usize
+  let alg ← Rd.name                                          -- TsigAlgorithm::read: set_fqdn(false)
+  let th ← readU16
+  let tl ← readU32
+  let fudge ← readU16
+  let macSize ← readU16
+  let idx ← index
+  if ¬ (idx + macSize + 6 ≤ endIdx) then
+    if endIdx < idx then Rd.panic "TSIG::read_data:end_idx-sub" else fail
+  else
+    let mac ← readSlice macSize
+    let oid ← readU16
+    let err ← readU16
+    let otherLen ← readU16
+    let idx ← index
+    if ¬ (idx + otherLen = endIdx) then
+      if endIdx < idx then Rd.panic "TSIG::read_data:end_idx-sub" else fail
+    else
+      let other ← readSlice otherLen
+      pure (.tsig { alg with fqdn := false } (th * 4294967296 + tl) fudge mac oid err other)
+
+/-- NSEC3 / NSEC3PARAM common head: hash algorithm (only 1 is known), flags (only opt-out), iterations, salt -/
+def readNsec3Head : Rd (Bool × Nat × Bytes) := do
+  let alg ← pop
+  if alg ≠ 1 then fail                                       -- UnknownNsec3HashAlgorithm
+  else
+    let flags ← pop
+    if flags / 2 ≠ 0 then fail                               -- UnrecognizedNsec3Flags
+    else
+      let iter ← readU16
+      let saltLen ← pop
+      let left ← remaining
+      if saltLen > left then fail
+      else
+        let salt ← readSlice saltLen
+        pure (decide (flags % 2 = 1), iter, salt)
+
+/-- `DNSSECRData::read` (after `RData::read` has already taken TSIG); KEY has no model yet -/
+def readDnssec (opq : Nat → Rd Bytes) (t : Nat) : Rd RData :=
+  if t = 43 then do                                          -- DS
+    let tag ← readU16; let alg ← pop; let dt ← pop
+    let d ← readVecToEnd
+    pure (.ds tag alg dt d)
+  else if t = 59 then do                                     -- CDS (algorithm 0 = None)
+    let tag ← readU16; let alg ← pop; let dt ← pop
+    let d ← readVecToEnd
+    pure (.ds tag alg dt d)
+  else if t = 48 then do                                     -- DNSKEY
+    let flags ← readU16
+    let proto ← pop
+    if proto ≠ 3 then fail                                   -- DnsKeyProtocolNot3
+    else
+      let alg ← pop
+      let k ← readVecToEnd
+      pure (.dnskey false flags alg k)
+  else if t = 60 then do                                     -- CDNSKEY
+    let flags ← readU16
+    let proto ← pop
+    if proto ≠ 3 then fail
+    else
+      let alg ← pop
+      let k ← readVecToEnd
+      pure (.dnskey true flags alg k)
+  else if t = 46 ∨ t = 24 then do                            -- RRSIG / SIG
+    let covered ← readU16
+    let alg ← pop
+    let labels ← pop
+    let ottl ← readU32
+    let exp ← readU32
+    let inc ← readU32
+    let tag ← readU16
+    let signer ← Rd.name
+    let sg ← readVecToEnd
+    pure (.sig covered alg labels ottl exp inc tag signer sg)
+  else if t = 47 then do                                     -- NSEC
+    let next ← Rd.name
+    let ts ← readTypeSet
+    pure (.nsec next ts)
+  else if t = 50 then do                                     -- NSEC3
+    let (optOut, iter, salt) ← readNsec3Head
+    let hashLen ← pop
+    let left ← remaining
+    if hashLen > left then fail
+    else
+      let hash ← readSlice hashLen
+      let ts ← readTypeSet
+      pure (.nsec3 optOut iter salt hash ts)
+  else if t = 51 then do                                     -- NSEC3PARAM
+    let (optOut, iter, salt) ← readNsec3Head
+    pure (.nsec3param optOut iter salt)
+  else if t = 25 then do                                     -- KEY
+    let v ← opq t
+    pure (.opaque t v)
+  else Rd.panic "DNSSECRData::read:not a dnssec RecordType"
 
 /-- the `match record_type { .. }` of `RData::read` -/
 def readRDataBody (opq : Nat → Rd Bytes) (t : Nat) : Rd RData :=
@@ -304,6 +463,33 @@ def readRDataBody (opq : Nat → Rd Bytes) (t : Nat) : Rd RData :=
     let os ← toEnd fun d => parseOpt total d []
     pure (.opt os)
   else if t = 0 then pure .zero                              -- ZERO
+  else if t = 250 then readTsig                              -- TSIG
+  else if t = 37 then do                                     -- CERT
+    let left ← remaining
+    if left ≤ 5 then fail
+    else
+      let ct ← readU16; let tag ← readU16; let alg ← pop
+      let d ← readVecToEnd
+      pure (.cert ct tag alg d)
+  else if t = 62 then do                                     -- CSYNC
+    let serial ← readU32
+    let flags ← readU16
+    if (flags % 256) / 4 ≠ 0 then fail                       -- `flags & 0b1111_1100 == 0` (low octet only)
+    else
+      let ts ← readTypeSet
+      pure (.csync serial flags ts)
+  else if t = 52 ∨ t = 53 then do                            -- TLSA / SMIMEA
+    let u ← pop; let sel ← pop; let m ← pop
+    let d ← readVecToEnd
+    pure (.tlsa u sel m d)
+  else if t = 44 then do                                     -- SSHFP
+    let a ← pop; let f ← pop
+    let d ← readVecToEnd
+    pure (.sshfp a f d)
+  else if t = 61 then do                                     -- OPENPGPKEY
+    let d ← readVecToEnd
+    pure (.openpgpkey d)
+  else if isDnssec t then readDnssec opq t                   -- `r if r.is_dnssec()`
   else if unmodelled.contains t then do
     let v ← opq t
     pure (.opaque t v)
@@ -390,12 +576,9 @@ def readRecords (opq : Nat → Rd Bytes) (isAdditional : Bool) (op : Nat) :
     else if !isAdditional then readRecords opq isAdditional op count (recs ++ [r], edns, sig)
     else
       match r.rdata with
-      | .opaque t _ =>
-        if t = T_TSIG then
-          -- `record.map(|data| match data { RData::TSIG(t) => Some(t), _ => None }).unwrap()`
-          if r.rtype ≠ T_TSIG then Rd.panic "read_records:unwrap"
-          else readRecords opq isAdditional op count (recs, edns, some r)
-        else readRecords opq isAdditional op count (recs ++ [r], edns, sig)
+      | .tsig _ _ _ _ _ _ _ =>
+        -- `record.map(|data| match data { RData::TSIG(t) => Some(t), _ => None }).unwrap()`
+        readRecords opq isAdditional op count (recs, edns, some r)
       | .opt _ =>
         if edns.isSome then fail                                            -- DuplicateEdns
         else do
